@@ -381,6 +381,34 @@ func init() {
 					idx++
 				}
 			})
+			// "relational non-assoc" (and ~ !~): a chain written without parentheses has no grouping
+			// the table prescribes; it must be rejected, never silently grouped one way
+			rel := []string{"<", "<=", "==", "!=", ">", ">="}
+			for _, lvl := range [][]string{rel, {"~", "!~"}} {
+				for _, o1 := range lvl {
+					for _, o2 := range lvl {
+						for _, cxn := range []string{"stmt", "if", "while", "pattern", "subscript", "arg"} {
+							if c.Mine(idx) {
+								text := "x " + o1 + " y " + o2 + " z"
+								src, _ := c04Source(cxn, text, "")
+								cs := c04Case{Desc: "chain:" + o1 + " " + o2, Context: cxn, Min: src, Want: "rejected"}
+								c.Begin(cs)
+								c.Eval(1)
+								c.Count("nonassoc_chains", 1)
+								got, err, pm := c04Parsed(cxn, src)
+								if pm != "" {
+									c.Violation("parse-panic", "", "parser panicked on "+core.Q(text)+": "+run.PanicSite(pm), "a parse error", pm, cs)
+								} else if err == nil {
+									c.Violation("nonassoc-chain-accepted", "", fmt.Sprintf("[%s] the non-associative chain %s is accepted and grouped as %s", cxn, core.Q(text), got), "a parse error", got, cs)
+								} else {
+									c.NonTrivial("chain|" + cxn + "|" + text)
+								}
+							}
+							idx++
+						}
+					}
+				}
+			}
 			// triples: all in thorough, a seeded 1-in-12 sample in quick
 			pick := c.RandGlobal("triples")
 			stride := n(c.Tier, 12, 1)
@@ -418,6 +446,14 @@ func init() {
 		Replay: func(c *core.Ctx, raw json.RawMessage) {
 			var cs c04Case
 			if json.Unmarshal(raw, &cs) != nil {
+				return
+			}
+			if cs.Want == "rejected" {
+				got, err, pm := c04Parsed(cs.Context, cs.Min)
+				fmt.Printf("chain: %s\n  got %s err=%v %s\n", core.Q(cs.Min), got, err, pm)
+				if pm == "" && err == nil {
+					c.Violation("nonassoc-chain-accepted", "", "the non-associative chain is accepted", "a parse error", got, cs)
+				}
 				return
 			}
 			for _, v := range []struct{ name, src string }{{"full", cs.Full}, {"min", cs.Min}} {
